@@ -202,13 +202,22 @@ func buildField(kind int) *MatchField {
 		return NewIcmpTypeField(av8())
 	case 33:
 		idx := 3
-		if vr.Thorough() {
+		if vr.Thorough() && !shortMode {
 			idx = vr.IntRange("reg", 0, 15)
+		} else if vr.Thorough() {
+			idx = []int{0, 3, 15}[vr.Choice("reg", 3)]
 		}
 		argRegIdx = idx
 		if masked && maskMode == 1 {
 			argRng = []int{4, 19}
 			return NewRegMatchField(idx, av32(), NewNXRange(4, 19))
+		}
+		if masked && shortMode {
+			// inside a container: a few ranges (whole register, inner, top bit, bottom bit); the
+			// per-kind harnesses cover all 528
+			r := [][2]int{{0, 31}, {4, 19}, {31, 31}, {0, 0}}[vr.Choice("range", 4)]
+			argRng = []int{r[0], r[1]}
+			return NewRegMatchField(idx, av32(), NewNXRange(r[0], r[1]))
 		}
 		if masked {
 			first := vr.IntRange("first", 0, 31)
@@ -288,8 +297,14 @@ func buildFieldShort(w int) *MatchField {
 			n = len(fieldShort)
 		}
 	}
-	return buildField(fieldShort[vr.Choice("fkind", n)])
+	shortMode = true
+	f := buildField(fieldShort[vr.Choice("fkind", n)])
+	shortMode = false
+	return f
 }
+
+// shortMode: buildField is called for a child of a container (see case 33)
+var shortMode = false
 
 func buildMatch(maxFields int, w int) *Match {
 	m := NewMatch()
